@@ -7,6 +7,7 @@ import pathlib
 import re
 from typing import Any, Dict, List, Optional, Tuple
 
+from harness import extract
 from harness.extract import ExtractError, HEADER, _func, _class, _parse, lean_text
 
 
@@ -93,6 +94,36 @@ def line_wrapper(repo: pathlib.Path, rel: str, cpp: bool = False) -> Dict[str, A
     what = f"{rel}:documentation_comment"
     fn = _func(_parse(repo, rel), "documentation_comment")
     loops = [s for s in fn.body if isinstance(s, ast.For)]
+    comps = [
+        s.value for s in fn.body
+        if isinstance(s, (ast.Assign, ast.AnnAssign)) and isinstance(s.value, ast.ListComp)
+    ]
+    if not cpp and not loops and len(comps) == 1:
+        # `[<blank> if len(line.strip()) == 0 else f"<pre>{line}" for line in text.splitlines()]` reads as the loop
+        # `for line in text.splitlines(): if len(line.strip()) == 0: <lines>.append(<blank>) else: <lines>.append(f"…")`
+        comp = comps[0]
+        gen = comp.generators[0]
+        if not (
+            len(comp.generators) == 1
+            and not gen.ifs
+            and not gen.is_async
+            and isinstance(gen.target, ast.Name)
+            and ast.unparse(gen.iter) == "text.splitlines()"
+            and isinstance(comp.elt, ast.IfExp)
+        ):
+            raise ExtractError(f"{what}: the comprehension is not `<a> if <test> else <b> for <line> in text.splitlines()`")
+
+        def _append(e: ast.expr) -> ast.stmt:
+            return ast.Expr(value=ast.Call(func=ast.Attribute(value=ast.Name(id="lines", ctx=ast.Load()), attr="append", ctx=ast.Load()), args=[e], keywords=[]))
+
+        loops = [
+            ast.For(
+                target=gen.target,
+                iter=gen.iter,
+                body=[ast.If(test=comp.elt.test, body=[_append(comp.elt.body)], orelse=[_append(comp.elt.orelse)])],
+                orelse=[],
+            )
+        ]
     if len(loops) != 1:
         raise ExtractError(f"{what}: expected exactly one loop")
     loop = loops[0]
@@ -206,7 +237,12 @@ def py_docstring(repo: pathlib.Path) -> Dict[str, Any]:
     rel = "aas_core_codegen/python/description.py"
     what = f"{rel}:docstring"
     fn = _func(_parse(repo, rel), "docstring")
-    body = [s for s in fn.body if not (isinstance(s, ast.Expr) and isinstance(s.value, ast.Constant))]
+    # named constants and named sub-conditions read as if written in place (`q = '"""'`, `fits = len(q) + … < 70`);
+    # the escaped text (the replacement chain over `text`) keeps its name
+    fn = extract.fold_constants(  # type: ignore[assignment]
+        extract.expand_locals(fn, keep=lambda name, value: isinstance(value, ast.Call) and ast.unparse(value.func).endswith(".replace"))
+    )
+    body = [s for s in fn.body if not (isinstance(s, ast.Expr) and isinstance(s.value, ast.Constant)) and not isinstance(s, ast.Pass)]
     if len(body) != 3:
         raise ExtractError(f"{what}: expected assign/if/return, got {len(body)} statements")
     s_esc, s_if, s_ret = body
